@@ -35,10 +35,42 @@ def run_overlay(repo, test_file, run, pkg='.', timeout=90):
         shutil.rmtree(tmp, ignore_errors=True)
 
 
+def run_strace(repo, test_file, run, pkg='.', timeout=120):
+    """build the in-package test binary with the overlay, run it under strace and count close(2) calls on the
+    descriptor number the test prints between its GOCV-FD and GOCV-END markers"""
+    tmp = tempfile.mkdtemp(prefix='gocv-replay-', dir=os.environ.get('GOCV_TMP', '/var/tmp'))
+    try:
+        src = os.path.join(ROOT, 'replay', test_file)
+        dst = os.path.join(repo, pkg, 'zz_gocv_replay_test.go') if pkg != '.' else os.path.join(repo, 'zz_gocv_replay_test.go')
+        ov = os.path.join(tmp, 'ov.json'); json.dump({'Replace': {dst: src}}, open(ov, 'w'))
+        binp = os.path.join(tmp, 'replay.test')
+        p = subprocess.run(['go', 'test', '-overlay', ov, '-vet=off', '-c', '-o', binp, './' + pkg if pkg != '.' else '.'], cwd=repo, env=GOENV, stdout=subprocess.PIPE, stderr=subprocess.STDOUT, timeout=300)
+        if p.returncode: return 2, 'build failed: ' + p.stdout.decode()[-1500:]
+        log = os.path.join(tmp, 'strace.log')
+        p = subprocess.run(['strace', '-f', '-e', 'trace=close,write', '-o', log, binp, '-test.run', run, '-test.count=1'], cwd=os.path.join(repo, pkg), stdout=subprocess.PIPE, stderr=subprocess.STDOUT, timeout=timeout)
+        lines = open(log).read().split('\n')
+        fd = None; closes = []; active = False
+        for l in lines:
+            m = re.search(r'write\(2, "GOCV-FD (\d+)', l)
+            if m: fd = m.group(1); active = True; continue
+            if 'GOCV-END' in l: active = False
+            if active and fd is not None and re.search(r'close\(%s\)' % fd, l): closes.append(l.strip())
+        if fd is None: return 2, 'marker not found; test output: ' + p.stdout.decode()[-800:]
+        out = 'descriptor %s: %d close(2) call(s) between the markers\n' % (fd, len(closes)) + '\n'.join(closes)
+        return (1 if len(closes) != 1 else 0), ('FAIL ' if len(closes) != 1 else 'ok ') + out
+    except subprocess.TimeoutExpired:
+        return 124, 'replay timed out'
+    finally:
+        shutil.rmtree(tmp, ignore_errors=True)
+
+
 def try_replay(pid, obligation, rep, repo):
     if not DRIVERS: register()
     for prop, rx, tf, run, pkg in DRIVERS:
         if prop == pid and rx.search(obligation):
+            if tf.startswith('strace:'):
+                rc, out = run_strace(repo, tf[7:], run, pkg)
+                return {'driver': tf, 'run': run, 'reproduced': rc == 1, 'exit': rc, 'output': out}
             rc, out = run_overlay(repo, tf, run, pkg)
             # drivers are written so that the test FAILS exactly when the real code misbehaves
             return {'driver': tf, 'run': run, 'reproduced': rc not in (0, 124) and 'FAIL' in out, 'exit': rc, 'output': out}
